@@ -23,6 +23,8 @@ JS = [
     # definition and calls in ONE atom (minified / one-line scripts)
     b"function f(a){return a};f(1)\n",
     b"function g(x,y){return x+y};g(1,2);g(3,4)\nvar h = function(p){return p.q};h(o.r)\n",
+    # a call whose argument list continues on the next line (no closing parenthesis in the atom of the name)
+    b"function foo(a, b) {\n}\nfoo(first_argument_with_a_rather_long_name + another_long_operand_name * 1234567890,\n    2);\nbar(x\n",
 ]
 
 
@@ -351,7 +353,73 @@ def known_finding_cases(ctx):
         ctx.fail("known-finding-replay-changed", f"the recorded collapse-regrows-atoms run now makes {len(run.verdicts) + 1} tests (49 recorded), error={run.error}", case)
 
 
+def option_values(ctx):
+    """'for all ... configurations': any value the command line ACCEPTS for --min/--max/--chunk-size (negative ones, zero, non
+    powers of two are either refused before the first test or the run still ends within the bound)"""
+    import contextlib
+    import io
+    import os
+    import signal
+    import sys
+    from lithium.reducer import Lithium
+    from lithium.util import LithiumError
+
+    d = loaders.scratch() / "c09-cli"
+    d.mkdir(exist_ok=True)
+    (d / "c09_cap_test.py").write_text(
+        "import os\nCOUNT = [0]\nclass TooMany(Exception):\n    pass\n"
+        "def interesting(args, prefix):\n    COUNT[0] += 1\n    if COUNT[0] > int(os.environ['C09_CAP']):\n        raise TooMany()\n"
+        "    mode = os.environ['C09_MODE']\n    return COUNT[0] == 1 or mode == 'yes' or (mode == 'alt' and COUNT[0] % 2 == 1)\n")
+    data = b"".join(b"l%d\n" % i for i in range(8))
+    cap = bound_removal(8)
+
+    class Stuck(Exception):
+        pass
+
+    def on_alarm(_s, _f):
+        raise Stuck()
+
+    cwd = os.getcwd()
+    os.chdir(d)
+    old = signal.signal(signal.SIGALRM, on_alarm)
+    try:
+        for name in REMOVAL:
+            for opts in (["--max=-4"], ["--max=-1"], ["--chunk-size=-2"], ["--chunk-size=-1"], ["--min=-2"], ["--min=-1", "--max=-1"], ["--max=0"],
+                         ["--chunk-size=0"], ["--min=0"], ["--max=3"], ["--chunk-size=6"], ["--min=4", "--max=2"], ["--max=4"], ["--chunk-size=2"]):
+                for mode in ("yes", "alt", "no"):
+                    tc = d / "tc.txt"
+                    tc.write_bytes(data)
+                    sys.modules.pop("c09_cap_test", None)
+                    os.environ["C09_CAP"], os.environ["C09_MODE"] = str(cap), mode
+                    argv = [f"--strategy={name}"] + opts + ["c09_cap_test.py", str(tc)]
+                    case = dict(cli=True, argv=argv[:-1], verdicts=mode, n=8)
+                    ctx.evaluations += 1
+                    ctx.bump("option-values")
+                    signal.alarm(20)
+                    try:
+                        with contextlib.redirect_stdout(io.StringIO()), contextlib.redirect_stderr(io.StringIO()):
+                            Lithium().main(argv)
+                        ctx.nontriv("option-values", name, tuple(opts), mode)
+                    except (SystemExit, LithiumError):
+                        pass                    # refused: fine
+                    except Stuck:
+                        ctx.fail("too-many-tests", f"main({argv[:-1]}) ({mode}): still running after 20 s without exceeding {cap} tests", case)
+                    except Exception as exc:  # pylint: disable=broad-except
+                        if type(exc).__name__ == "TooMany":
+                            ctx.fail("too-many-tests", f"main({argv[:-1]}) ({mode}) on 8 atoms: more than {cap} tests", case)
+                        else:
+                            ctx.fail("internal-error", f"main({argv[:-1]}) ({mode}) raised {type(exc).__name__}: {exc}", case)
+                    finally:
+                        signal.alarm(0)
+    finally:
+        signal.signal(signal.SIGALRM, old)
+        os.environ.pop("C09_CAP", None)
+        os.environ.pop("C09_MODE", None)
+        os.chdir(cwd)
+
+
 def search(ctx):
+    option_values(ctx)
     collapse_runs(ctx, do_model=False)
     marker_forming(ctx, do_model=False)
     collapse_deterministic(ctx, do_model=False)
@@ -363,6 +431,7 @@ def run(ctx) -> int:
     proof = common.proof_stage(ctx.pid)
     known_finding_cases(ctx)
     loose_verdicts(ctx)
+    option_values(ctx)
     grid(ctx, ctx.thorough)
     collapse_runs(ctx)
     marker_forming(ctx)
